@@ -105,6 +105,9 @@ func c15Make(ctx *rt.Ctx, c c15Case, path string) {
 	switch c.File {
 	case "nonexistent":
 		return
+	case "dangling-symlink":
+		os.Symlink(path+".target-that-does-not-exist", path)
+		return
 	case "zero-bytes":
 		os.WriteFile(path, nil, 0o644)
 		return
@@ -168,7 +171,7 @@ func c15Make(ctx *rt.Ctx, c c15Case, path string) {
 // mustError: does the property list this damage as an incompleteness that opening (with these options) must reject?
 func c15MustError(c c15Case, preload bool) string {
 	switch c.File {
-	case "nonexistent":
+	case "nonexistent", "dangling-symlink":
 		return "the path does not exist"
 	case "zero-bytes", "not-bbolt":
 		return "" // not a structurally valid bbolt file; only no-panic / released / not hanging are required
@@ -247,13 +250,19 @@ func c15Play(ctx *rt.Ctx, c c15Case) (viol string, outcome string) {
 						v = fmt.Sprintf("step %d %s of a valid index failed: %v", n+1, op, err)
 						return
 					}
-					if !flk.Free(path) {
+					if c.File != "dangling-symlink" && !flk.Free(path) {
 						v = fmt.Sprintf("step %d %s failed (%v) but the file is still locked: the next open would block forever", n+1, op, err)
 						return
 					}
 					if c.File == "nonexistent" {
 						if _, serr := os.Stat(path); serr == nil {
 							v = fmt.Sprintf("step %d %s of a nonexistent path created it", n+1, op)
+						}
+					}
+					if c.File == "dangling-symlink" {
+						if _, serr := os.Stat(path + ".target-that-does-not-exist"); serr == nil {
+							os.Remove(path + ".target-that-does-not-exist")
+							v = fmt.Sprintf("step %d %s of a dangling symbolic link created the file it points to", n+1, op)
 						}
 					}
 					return
@@ -382,7 +391,7 @@ func c15Worker(ctx *rt.Ctx, job *rt.Job) []*rt.Violation {
 	sets := c15DamageSets(ctx, ctx.Thorough())
 	hs := c15Histories(ctx.Thorough())
 	var cases []c15Case
-	for _, f := range []string{"nonexistent", "zero-bytes", "not-bbolt"} {
+	for _, f := range []string{"nonexistent", "dangling-symlink", "zero-bytes", "not-bbolt"} {
 		for _, h := range hs {
 			cases = append(cases, c15Case{File: f, History: h})
 		}
